@@ -194,13 +194,31 @@ void sj_ordered(const vh::Case& c, Failure& F, int reps) {
 void sj_lr(const vh::Case& c, Failure& F, int reps) {
     lg::lr_guarded<Payload> g;
     std::atomic<long> mods{0};
+    // shared handles are movable and have no thread affinity: some are handed to another thread through a mailbox and released there
+    std::mutex mb_m; std::vector<lg::lr_guarded<Payload>::shared_handle> mailbox;
     run_threads((int)c.fibers.size(), [&](int t) {
         for (int r = 0; r < reps; ++r) for (auto& op : c.fibers[(size_t)t]) {
             jitter(op.b);
-            if (op.code % 3 == 0) { g.modify([&](Payload& p) { p.push_back(t); }); mods++; }
+            if (op.code % 3 == 0 && (op.a & 12) == 12) {
+                // take over a handle another thread acquired and release it here, or post one for somebody else (never while holding one: the writer needs progress)
+                std::optional<lg::lr_guarded<Payload>::shared_handle> taken;      // (the handle type is neither default-constructible nor move-assignable)
+                { std::lock_guard<std::mutex> lk(mb_m); if (!mailbox.empty()) { taken.emplace(std::move(mailbox.back())); mailbox.pop_back(); } }
+                if (taken) { keep((*taken)->size()); taken.reset(); }
+                else { auto h = g.lock_shared(); keep(h->size()); std::lock_guard<std::mutex> lk(mb_m); if (mailbox.size() < 2) mailbox.push_back(std::move(h)); }
+            }
+            else if (op.code % 3 == 0) {
+                // a writer first releases whatever is posted (possibly its own earlier handle): afterwards it can only be delayed by handles whose
+                // posters are still running, and every poster empties the mailbox again before it writes or finishes
+                { std::vector<lg::lr_guarded<Payload>::shared_handle> mine; { std::lock_guard<std::mutex> lk(mb_m); mine.swap(mailbox); } mine.clear(); }
+                g.modify([&](Payload& p) { p.push_back(t); }); mods++;
+            }
             else { auto h = g.lock_shared(); size_t n = h->size(); long s = 0; for (int v : *h) s += v; jitter(op.a); if (h->size() != n) F.report("unstable-read", "lr_guarded value changed under a held handle"); keep(s); }
         }
+        { std::vector<lg::lr_guarded<Payload>::shared_handle> mine; { std::lock_guard<std::mutex> lk(mb_m); mine.swap(mailbox); } mine.clear(); }      // before finishing
     });
+    mailbox.clear();                                    // every handle is released now (on this thread): a writer must get through
+    g.modify([&](Payload& p) { p.push_back(-1); }); mods++;
+    g.modify([&](Payload& p) { p.push_back(-1); }); mods++;
     auto h = g.lock_shared();
     if ((long)h->size() != mods.load()) F.report("final-value", "lr_guarded lost a modification");
 }
